@@ -204,6 +204,37 @@ def run_process(src, ctx):
     return tf
 
 
+def _cfg_ctx(ctx):
+    from sqlfluff.core import FluffConfig
+    return FluffConfig(overrides={"dialect": "ansi", "templater": "python"}, configs={"templater": {"python": {"context": dict(ctx)}}})
+
+
+def history_problem(src, ctx):
+    """One PythonTemplater object renders an earlier file whose context defines x, y AND z, then `src` with a context that
+    defines only y: the second rendering must be what str.format gives with ITS context (a missing name is an error)."""
+    from sqlfluff.core.errors import SQLTemplaterError
+    t = PythonTemplater()
+    t.process(in_str="{x}{y}{z}", fname="earlier.sql", config=_cfg_ctx({"x": "OLDX", "y": "OLDY", "z": "OLDZ"}))   # REAL
+    own = {"y": ctx["y"]}
+    try:
+        exp = src.format(**own)
+    except KeyError:
+        exp = None
+    except Exception:
+        return None
+    try:
+        tf, _ = t.process(in_str=src, fname="f.sql", config=_cfg_ctx(own))   # REAL, same object
+        got = tf.templated_str
+    except SQLTemplaterError:
+        got = None
+    except Exception as e:
+        return f"raises {type(e).__name__}: {str(e)[:80]}"
+    if got != exp:
+        return (f"python templater object reused after a file with context x,y,z: {src!r} with context {own} renders {got!r}, "
+                f"str.format gives {'an error (missing name)' if exp is None else repr(exp)}")
+    return None
+
+
 def make_process(n_pieces, prop):
     def factory(excluded=frozenset()):
         def harness(c):
@@ -218,6 +249,10 @@ def make_process(n_pieces, prop):
             if "PY_COLLIDE" in excluded and _collides(src, ctx):
                 from symlite.core import Abort
                 raise Abort()
+            if prop == "C09" and bool(fresh_bool(c, "templater_instance_used_before")):
+                # history: the SAME templater object rendered another file first, whose config context defined more names
+                c.witness("templater_reused")
+                return history_problem(src, ctx) is None
             tf = run_process(src, ctx)  # REAL
             if any(s.slice_type == "templated" and s.templated_slice.start == s.templated_slice.stop for s in tf.sliced_file):
                 c.witness("empty_rendering_field")
@@ -252,6 +287,8 @@ def replay_process(n_pieces, prop):
         n = int(cex.get("n_pieces", 1))
         src = "".join(PIECES[int(cex.get(f"piece{i}", 0))] for i in range(n))
         ctx = {"x": XVALS[int(cex.get("x_value", 0))], "y": YVALS[int(cex.get("y_value", 0))]}
+        if prop == "C09" and cex.get("templater_instance_used_before"):
+            return history_problem(src, ctx)
         try:
             exp = src.format(**ctx)
         except Exception:
@@ -316,4 +353,5 @@ def process_units(prop, tier):
         stubs=["none: real templater on real strings; template and context are solver-forked"],
         assumptions=["a templater without control flow must map the source left to right without gaps (our reading of 'consistent')"],
         outside=["templates outside this piece alphabet"],
-        witnesses_required=["rendered", "empty_rendering_field"], sharded=True, timeout_s=600 if tier == "quick" else 2400)]
+        witnesses_required=["rendered", "empty_rendering_field"] + (["templater_reused"] if prop == "C09" else []), sharded=True,
+        timeout_s=600 if tier == "quick" else 2400)]
